@@ -142,6 +142,16 @@ def make(i, prop=None):
     # later additions draw from their own sequence, so that the specifications generated so far keep their content
     r2 = random.Random("rockit-spec-extra-%d" % i)
     kw["der_order"] = r2.choice(["declared", "reversed"])
+    if not discrete and r2.random() < 0.3:
+        # higher-order controls (ocp.control(order=k)): helper states + helper control, atom 'w'
+        kw["hoc"] = r2.choice([[(1, 1)], [(1, 2)], [(2, 1)], [(1, 1), (1, 2)]])
+        kw["ode"] = E(kw["ode"].name, None, tuple(kw["ode"].deps) + ("w",))
+        if r2.random() < 0.5:
+            kw["scales"] = dict(kw["scales"], w="unknown")
+        kw["constraints"] = list(kw["constraints"]) + [Con(E("cw", 1, ("w", "x") + ((("off", "w", r2.choice([1, -1])),) if r2.random() < 0.5 else ())), r2.choice(["le", "ge"]), 2.5,
+                                                           grid=r2.choice([None, None, "integrator"]), include_last=r2.random() < 0.7)]
+        if r2.random() < 0.5:
+            kw["objective"] = list(kw["objective"]) + [(r2.choice(["sum", "at_tf"]), E("ow", 1, ("w", "x")))]
     return kw
 
 
